@@ -86,6 +86,7 @@ def check_prop(prop, tier, seed, a):
         print("UNDECIDED property=%s reason=no jobs registered" % prop)
         return 2
     os.makedirs(core.BUILD, exist_ok=True)
+    core.reset_source_cache()
     # heavier jobs first
     jobs.sort(key=lambda j: -j.timeout if j.solver != "race" else -2 * j.timeout)
     results = []
